@@ -3,6 +3,7 @@
 package scen
 
 import (
+	"fmt"
 	"sort"
 
 	"github.com/libp2p/go-libp2p/core/peer"
@@ -15,7 +16,7 @@ func init() {
 	common := func(sc *sim.Scenario) *sim.Scenario {
 		sc.Real = []string{"IpfsDHT.GetClosestPeers", "query.go state machine incl. follow-up phase", "qpeerset", "lookup events", "kbucket routing table (refresh stamps)", "ProtocolMessenger"}
 		sc.Stub = []string{"host.Host/network (simhost)", "pb.MessageSender (level A)", "remote peers (scripted: full knowledge / k-bucket complete / random with faults)"}
-		sc.Faults = []string{"fault_dial_fail", "fault_rpc_error", "fault_cancel", "time_advance", "probe_term_completed", "probe_term_starvation", "probe_followup_ran", "probe_stamp_checked"}
+		sc.Faults = append([]string{"fault_dial_fail", "fault_rpc_error", "fault_cancel", "time_advance", "probe_term_completed", "probe_term_starvation", "probe_followup_ran", "probe_stamp_checked"}, c02BareFaults...)
 		return sc
 	}
 	mk := func(name, universe string, weight int) {
@@ -27,8 +28,15 @@ func init() {
 					c.CancelAt = s.Range("cancel-at", 1, 40)
 				}
 			}
+			// patchy address knowledge (c02_bare.go): peers named without
+			// addresses, seeds without a stored address
+			bare := drawBareWorld(s)
+			bare.install(&c)
 			s.MaxSteps = 800
 			o := runLookup(s, c)
+			if o != nil {
+				s.Summary["cfg"] = fmt.Sprintf("%v bare=%s", s.Summary["cfg"], bare)
+			}
 			if o != nil && !s.Failed() {
 				checkC02(s, o)
 			}
@@ -81,13 +89,35 @@ func checkC02(s *sim.Sim, o *lookupObs) {
 		s.NonTrivial = len(v.queried) >= 2
 	}
 
-	// (c) termination: beta nearest non-failed learned peers answered, or nothing left to ask
+	// (c) termination: beta nearest non-failed learned peers answered, or nothing left to ask.
+	// "Failed" is a fact of the environment (c02_bare.go): the lookup calls the
+	// peer unreachable AND the simulator delivered a failed dial, a failed
+	// request or a cancellation for it no later than that report.
+	envFailed := map[peer.ID]int{}
+	for _, d := range o.deliveries {
+		if d.Kind == "dial-fail" || d.Kind == "rpc-err" || d.Kind == "cancel" {
+			if _, ok := envFailed[d.Peer]; !ok {
+				envFailed[d.Peer] = d.Step
+			}
+		}
+	}
+	failed := func(p peer.ID) bool {
+		st, f := v.unreach[p]
+		if !f {
+			return false
+		}
+		fs, ok := envFailed[p]
+		return ok && fs <= st
+	}
 	if !cancelled && v.termIdx >= 0 && v.reason != "cancelled" && v.reason != "stopped" {
-		var alive []peer.ID
+		var alive, writtenOff []peer.ID
 		left := 0
 		for p := range v.learned {
-			if _, f := v.unreach[p]; f || p == u.Self.ID {
+			if p == u.Self.ID || failed(p) {
 				continue
+			}
+			if _, f := v.unreach[p]; f {
+				writtenOff = append(writtenOff, p)
 			}
 			alive = append(alive, p)
 			if _, q := v.queried[p]; !q {
@@ -107,7 +137,11 @@ func checkC02(s *sim.Sim, o *lookupObs) {
 			}
 		}
 		if !allQ && left > 0 {
-			s.Violate("terminate-early", "lookup ended (%s) although one of the beta=%d nearest non-failed learned peers [%s] has not answered and %d learned peers were still to be asked", v.reason, o.cfg.Beta, names(u, top), left)
+			extra := ""
+			if len(writtenOff) > 0 {
+				extra = fmt.Sprintf("; the lookup wrote off {%s} as unreachable although no dial and no request to them failed", sortedNames(u, writtenOff))
+			}
+			s.Violate("terminate-early", "lookup ended (%s) although one of the beta=%d nearest non-failed learned peers [%s] has not answered and %d learned peers were still to be asked%s", v.reason, o.cfg.Beta, names(u, top), left, extra)
 		}
 		s.Count("probe_term_" + v.reason)
 		if o.cfg.Universe == "random" {
@@ -136,6 +170,8 @@ func checkC02(s *sim.Sim, o *lookupObs) {
 			s.Count("probe_followup_ran")
 		}
 	}
+
+	bareProbes(s, o, res)
 
 	// (e) the refresh stamp of the key's bucket moves iff the lookup completed
 	cpl := u.Self.Kad.CPL(o.keyKad)
